@@ -10,7 +10,7 @@
 From Coq Require Import String ZArith QArith Bool Arith List Permutation.
 From GT Require Import Base.UTree Spec.Obs Spec.Unrooted Spec.NNISpec Model.Reroot Model.NNI Model.Newick
      Proofs.RerootBase Proofs.NNIBase Proofs.NNIMain Proofs.NNICount Proofs.NNIDistinct Proofs.NNIList
-     Proofs.NNIInner Proofs.NNITop.
+     Proofs.NNIInner Proofs.USplits Proofs.NNIUSplits Proofs.NNITop.
 Import ListNotations.
 Local Close Scope Q_scope.
 Local Open Scope string_scope.
@@ -266,3 +266,111 @@ Example C17_example_multifurcation :
      (4, [1], 1, false); (4, [1], 1, true)].
 Proof. exact witness_multi_facts. Qed.
 Print Assumptions C17_example_multifurcation.
+
+(** * stretch 5 *)
+(** (1) the count for EVERY binary tree, rooted or not, any root position: two per inner
+    branch, except that the inner branch through a degree-2 root (both root children inner
+    nodes) gets none -- the open finding C17-nni-root-branch, characterised exactly; with the
+    structural count and with the non-trivial bipartitions of [usplits] *)
+Theorem C17_count_exact :
+  forall t, wf t = true -> binary t = true ->
+    length (nni_list t) =
+    2 * (inner_branch_count t - (if rooted t && Nat.eqb (inner_root_kids t) 2 then 1 else 0)).
+Proof. exact nni_count_exact. Qed.
+Print Assumptions C17_count_exact.
+
+Theorem C17_count_exact_splits :
+  forall t, wf t = true -> binary t = true -> NoDup (leaves t) ->
+    length (nni_list t) =
+    2 * (inner_split_count t - (if rooted t && Nat.eqb (inner_root_kids t) 2 then 1 else 0)).
+Proof. exact nni_count_exact_splits. Qed.
+Print Assumptions C17_count_exact_splits.
+
+(** (2) the neighbour differs from the original by exactly that one split, at the level of
+    Spec/Obs.v: in [usplits] the central branch's bipartition [c_old] (found in t, not in t')
+    is replaced by a new one [c_new] (found in t', not in t) with the same length and
+    support; every other bipartition is found in both with the same data (up to Qeq) *)
+Theorem C17_usplits_one_replaced :
+  forall t r t',
+    wf t = true -> binary t = true -> NoDup (leaves t) -> In r (nni_list t) -> apply r t = Some t' ->
+    exists c_old c_new,
+      (slen c_new == slen c_old)%Q /\ (ssup c_new == ssup c_old)%Q /\
+      sside c_old <> sside c_new /\
+      orel split_qeq (find_split (sside c_old) (usplits t)) (Some c_old) /\
+      find_split (sside c_new) (usplits t) = None /\
+      orel split_qeq (find_split (sside c_new) (usplits t')) (Some c_new) /\
+      find_split (sside c_old) (usplits t') = None /\
+      forall k, k <> sside c_old -> k <> sside c_new ->
+                orel split_qeq (find_split k (usplits t')) (find_split k (usplits t)).
+Proof. exact usplits_replaced_list. Qed.
+Print Assumptions C17_usplits_one_replaced.
+
+(** (3) pairwise distinct as unrooted topologies: different proposals give different sets of
+    [usplits] keys, and no neighbour has the key set of the original; [same_splits] (used
+    above) is equality of these key sets for trees on the same tips *)
+Theorem C17_neighbours_distinct_usplits :
+  forall t r1 r2 t1 t2,
+    wf t = true -> binary t = true -> NoDup (leaves t) ->
+    In r1 (nni_list t) -> In r2 (nni_list t) ->
+    (r_path r1, r_k r1, r_cross r1) <> (r_path r2, r_k r2, r_cross r2) ->
+    apply r1 t = Some t1 -> apply r2 t = Some t2 ->
+    ~ (forall k, In k (map sside (usplits t1)) <-> In k (map sside (usplits t2))).
+Proof. exact neighbours_distinct_usplits. Qed.
+Print Assumptions C17_neighbours_distinct_usplits.
+
+Theorem C17_neighbour_differs_usplits :
+  forall t r t1,
+    wf t = true -> binary t = true -> NoDup (leaves t) -> In r (nni_list t) -> apply r t = Some t1 ->
+    ~ (forall k, In k (map sside (usplits t1)) <-> In k (map sside (usplits t))).
+Proof. exact neighbour_differs_usplits. Qed.
+Print Assumptions C17_neighbour_differs_usplits.
+
+Theorem C17_same_keys_same_splits :
+  forall t1 t2, NoDup (leaves t1) -> Permutation (leaves t1) (leaves t2) ->
+    (forall k, In k (bkeys t1) <-> In k (bkeys t2)) -> same_splits t1 t2.
+Proof. exact same_keys_same_splits. Qed.
+Print Assumptions C17_same_keys_same_splits.
+
+Theorem C17_usplits_keys :
+  forall t k, In k (map sside (usplits t)) <-> In k (bkeys t).
+Proof. exact usplits_keys. Qed.
+Print Assumptions C17_usplits_keys.
+
+(** (4)/(5) overlapping uses of the enumeration.  Re-entrant: while proposal [r] is applied
+    the enumeration of the neighbour proposes its neighbours and leaves it as it is, and
+    Undo then restores [t].  Interleaved: the steps (Apply, Undo of every proposal) of two
+    enumerations, in any interleaving, leave both trees as they were -- the model has no
+    state besides the trees, [nni_list t] is a function of [t]. *)
+Theorem C17_nested_enumeration :
+  forall t r, wf t = true -> In r (nni_list t) ->
+    exists t1 l1, apply r t = Some t1 /\ wf t1 = true /\
+                  rearrange t1 = Some (l1, t1) /\
+                  Forall2 (fun r' t' => apply r' t1 = Some t') (nni_list t1) l1 /\
+                  undo r t1 = Some t.
+Proof. exact nested_enumeration. Qed.
+Print Assumptions C17_nested_enumeration.
+
+Theorem C17_two_enumerations_interleaved :
+  forall ta tb sched,
+    wf ta = true -> wf tb = true ->
+    length (filter (fun x => x) sched) = length (enum_steps ta) ->
+    length (filter negb sched) = length (enum_steps tb) ->
+    run_two sched (enum_steps ta) (enum_steps tb) ta tb = Some (ta, tb).
+Proof. exact two_enumerations_interleaved. Qed.
+Print Assumptions C17_two_enumerations_interleaved.
+
+(** non-vacuity: ((a,b),(c,d),(e,f)) -- three inner branches, six neighbours, in each one of
+    the three non-trivial keys is replaced by a new one, six different key sets *)
+Example C17_example_six_neighbours :
+  wf witness6 = true /\ binary witness6 = true /\ leaves witness6 = ["a"; "b"; "c"; "d"; "e"; "f"] /\
+  nt_keys witness6 = [["c"; "d"; "e"; "f"]; ["c"; "d"]; ["e"; "f"]] /\
+  length (nni_list witness6) = 6 /\ inner_split_count witness6 = 3 /\ inner_branch_count witness6 = 3 /\
+  map (fun r => match apply r witness6 with Some t' => nt_keys t' | None => [] end) (nni_list witness6) =
+  [[["b"; "c"; "d"]; ["e"; "f"]; ["c"; "d"]];
+   [["b"; "e"; "f"]; ["e"; "f"]; ["c"; "d"]];
+   [["d"; "e"; "f"]; ["c"; "d"; "e"; "f"]; ["e"; "f"]];
+   [["c"; "e"; "f"]; ["c"; "d"; "e"; "f"]; ["e"; "f"]];
+   [["c"; "d"; "e"; "f"]; ["c"; "d"; "e"]; ["c"; "d"]];
+   [["c"; "d"; "e"; "f"]; ["c"; "d"; "f"]; ["c"; "d"]]].
+Proof. exact witness6_facts. Qed.
+Print Assumptions C17_example_six_neighbours.
